@@ -485,6 +485,15 @@ func runProducerScenario(t testing.TB, rec *vRec, sc *prodScenario) {
 				fmt.Sscanf(n, "%d", &k)
 				c.Release(k)
 			}
+			// ... and the harness lets go of every goroutine it is holding at a gate (a gate is the
+			// harness blocking sarama, Close may rightly wait for it)
+			for _, gs := range gates {
+				select {
+				case <-gs.release:
+				default:
+					close(gs.release)
+				}
+			}
 		}
 		if vAwait(done, vCloseMax) {
 			rec.Ev("close_ret", nil)
